@@ -13,7 +13,7 @@ RULE_TEXT = "obligation = (rule, reader, wire type / branch); evaluations = abst
 
 
 def run(ctx) -> None:
-    for name, fn in (("U1", decode.rule_U1), ("U2", decode.rule_U2), ("U3", decode.rule_U3), ("U2b", decode.rule_U2b), ("U5", decode.rule_U5), ("U9", decode.rule_U9)):
+    for name, fn in (("U1", decode.rule_U1), ("U2", decode.rule_U2), ("U3", decode.rule_U3), ("U2b", decode.rule_U2b), ("U5", decode.rule_U5), ("U9", decode.rule_U9), ("U11", decode.rule_U11)):
         ctx.rules_run.append(name)
         fn(ctx)
     ctx.rules_run.append("T1[message]")
